@@ -176,6 +176,33 @@ def run_side(ctx, exe, cases, tag, extra_args=(), timeout=1200, env=None):
             kind = "timeout"
         elif "terminate called" in se or "BFL_VERIF_UNCAUGHT" in se:
             kind = "uncaught-exception"
+        if kind == "timeout":
+            # A stall that cannot be reproduced is not a finding: the culprit is re-run ALONE, up to three times, under a
+            # short limit. A change that makes the code hang (lost wake-up, dead loop) hangs again on its own case and is
+            # reported; a one-off stall of the machine (observed once in ~60 runs of C09 while another job saturated the
+            # cores) is counted in the evidence and the run continues with the culprit's record from the re-run.
+            redo = None
+            for _attempt in range(3 if ctx.extra.get("stalls_not_reproduced", 0) < 2 else 0):   # at most two such stalls per run
+                p1 = os.path.join(ctx.work, "%s_retry_%d.txt" % (tag, rounds))
+                caseio.write_cases(p1, [culprit])
+                try:
+                    with open(p1) as fin:
+                        pr1 = subprocess.run([exe] + list(extra_args), stdin=fin, capture_output=True, text=True, timeout=45, env=env)
+                    r1 = caseio.parse_records(pr1.stdout, "out")
+                    if pr1.returncode == 0 and culprit.id in r1:
+                        redo = r1
+                        continue          # must come through every time
+                    redo = None
+                    break
+                except subprocess.TimeoutExpired:
+                    redo = None
+                    break
+            if redo is not None:
+                outs.update(redo)
+                ctx.extra["stalls_not_reproduced"] = ctx.extra.get("stalls_not_reproduced", 0) + 1
+                ctx.log("a stall at case %s (%s, limit %ds) did not reproduce in three isolated re-runs; counted, not reported" % (culprit.id, tag, timeout))
+                pending = rest[1:]
+                continue
         crashes[culprit.id] = {"rc": rc, "stderr": se[-3000:], "kind": kind}
         pending = rest[1:]
         if kind == "timeout":
